@@ -231,6 +231,15 @@ func TestC01(t *testing.T) {
 		{Kind: "list", Elem: &Ty{Kind: "u", N: 1}, N: 1 << 40},
 		{Kind: "list", Elem: &Ty{Kind: "cont", Fields: []*Ty{{Kind: "u", N: 8}, {Kind: "bytes", N: 4}}}, N: 1 << 32},
 		{Kind: "cont", Fields: []*Ty{{Kind: "u", N: 1}, {Kind: "list", Elem: &Ty{Kind: "u", N: 1}, N: 8}, {Kind: "bitlist", N: 3}}},
+		// limits whose byte size (limit x element size) does not fit 64 bits: the chunk count and
+		// the tree depth must not be derived from a wrapped product
+		{Kind: "list", Elem: &Ty{Kind: "u", N: 8}, N: 1 << 61},
+		{Kind: "list", Elem: &Ty{Kind: "u", N: 8}, N: 1<<61 + 5},
+		{Kind: "list", Elem: &Ty{Kind: "u", N: 4}, N: 1 << 62},
+		{Kind: "list", Elem: &Ty{Kind: "u", N: 2}, N: 1 << 63},
+		{Kind: "list", Elem: &Ty{Kind: "u", N: 32}, N: 1 << 59},
+		{Kind: "list", Elem: &Ty{Kind: "root"}, N: 1 << 60},
+		{Kind: "bitlist", N: 1 << 63},
 	}
 	for ci, cfg := range []string{"sha", "alt"} {
 		g := &gen{r: newRng(int64(100 + ci)), noBool: true, maxElem: 40}
